@@ -466,7 +466,7 @@ def turns_mc(workdir, name, ops, switches=None, invariants=("InvCore", "InvRest"
     arms = " [] ".join('p = "%s" -> %s' % (p, rec) for p, rec in ops.items())
     with open(os.path.join(workdir, mod + ".tla"), "w") as f:
         f.write("---- MODULE %s ----\nEXTENDS MCTurns\nOpDef == [p \\in Procs |-> CASE %s]\n====\n" % (mod, arms))
-    sw = dict(AtomicCreate=False, AtomicDelete=False, AttachChecksDeleting=True)
+    sw = dict(AtomicCreate=False, AtomicDelete=False, AttachChecksDeleting=True, UnregisterFirst=True)
     if switches:
         sw.update(switches)
     lines = ["SPECIFICATION Spec", "CHECK_DEADLOCK FALSE", "CONSTANTS", "  SecMs = 1", "  MinAckSec = 2", "  MaxModSec = 4",
